@@ -479,6 +479,37 @@ def exemption(R, rep):
                    key="R7:get_exemption:shape")
 
 
+def override_precedence(R, rep):
+    """R7 (the configured amount): a value from an override file replaces the embedded one. Wherever library code outside the
+    parser of one file writes into a Config's exemptions table, the write must be of the overriding kind (`extend`, `insert`);
+    `entry(k).or_insert(v)` keeps the embedded amount and silently ignores the user's configuration for that year."""
+    F = R.F
+    n = 0
+    for b in F.bodies.values():
+        if b.crate != "cgt_core" or not P.user_written(F, b):
+            continue
+        tb = None
+        for i, t in b.calls():
+            m = parse_callee(t["callee"])[2]
+            if m not in ("extend", "insert", "or_insert", "or_insert_with", "or_insert_with_key", "try_insert", "entry") or not t["args"]:
+                continue
+            tb = tb or Terms(F, b, inline_depth=0)
+            recv = tb.operand(t["args"][0])
+            on_table = any(isinstance(x, tuple) and len(x) == 3 and x[0] == "field" and x[2] == "exemptions" for x in subterms(recv))
+            if not on_table:
+                continue
+            if m == "entry":
+                continue      # judged at the or_insert that consumes it
+            n += 1
+            ok = m in ("extend", "insert")
+            rep.ob("R7", f"{b.short}:override-replaces:{m}", ok,
+                   "values merged into the exemptions table replace the entries already there" if ok else
+                   f"`{m}` keeps the entry already in the exemptions table: an override file cannot change an embedded year's exemption",
+                   b.loc(t["sp"]), key=f"R7:{b.short}:override-precedence")
+    if n < 1:
+        rep.unresolved("R7", "override-merge", "no merge into Config.exemptions found (override files are expected to be merged over the embedded table)")
+
+
 def merge_values(R, rep):
     c = R.require("canon")
     tb = R.terms(c, 0)
@@ -540,4 +571,5 @@ def run(ctx, rep):
             rep.ob("R5", "group:function", False, v["detail"], v["site"], key="R5:group:function")
     dividends(R, rep)
     exemption(R, rep)
+    override_precedence(R, rep)
     merge_values(R, rep)
